@@ -30,8 +30,8 @@ import (
 
 type ndProfile struct {
 	drop, dup, early, fast, crash, crashmid, hold, part, heal, byz, catchup int // per mille
-	maxCrashes                                                             int
-	stall                                                                  bool // fast timeouts allowed at any step
+	maxCrashes                                                              int
+	stall                                                                   bool // fast timeouts allowed at any step
 }
 
 func ndProfileOf(name string) ndProfile {
@@ -126,10 +126,13 @@ func (r *ndRun) generate() string {
 			return l
 		}
 	case r.stats.crashes < p.maxCrashes && hit(p.crash):
-		return fmt.Sprintf("crash %d", hon[r.rng.Intn(len(hon))])
+		if n := hon[r.rng.Intn(len(hon))]; r.mayCrash(n) {
+			return fmt.Sprintf("crash %d", n)
+		}
 	case r.stats.crashes < p.maxCrashes && len(fresh) > 0 && hit(p.crashmid):
-		m := fresh[r.rng.Intn(len(fresh))]
-		return fmt.Sprintf("crashmid %d %s", m.dst, m.key)
+		if m := fresh[r.rng.Intn(len(fresh))]; r.mayCrash(m.dst) {
+			return fmt.Sprintf("crashmid %d %s", m.dst, m.key)
+		}
 	case r.stats.crashes < p.maxCrashes && hit(p.hold):
 		return fmt.Sprintf("hold %d", hon[r.rng.Intn(len(hon))])
 	case r.part == nil && len(hon) >= 3 && hit(p.part):
@@ -161,7 +164,7 @@ func (r *ndRun) generate() string {
 		if n := r.pickCatchup(hon); n >= 0 && r.rng.Intn(100) < 25 {
 			return fmt.Sprintf("cu %d", n)
 		}
-		return fmt.Sprintf("t %d", hon[r.rng.Intn(len(hon))])
+		return fmt.Sprintf("t %d", r.pickTimer(hon))
 	}
 	if len(dups) > 0 && r.rng.Intn(1000) < p.dup {
 		return "d " + dups[r.rng.Intn(len(dups))].key
@@ -184,6 +187,31 @@ func (r *ndRun) generate() string {
 		return "u " + m.key
 	}
 	return "d " + m.key
+}
+
+// pickTimer: when nothing can be delivered some clock must advance; mostly the node that is furthest behind (the one whose
+// deadline would expire first in real time), sometimes any node.
+func (r *ndRun) pickTimer(hon []int) int {
+	if r.rng.Intn(100) < 30 {
+		return hon[r.rng.Intn(len(hon))]
+	}
+	r.mu.Lock()
+	defer r.mu.Unlock()
+	best := []int{}
+	for _, id := range hon {
+		n := r.nodes[id]
+		if len(best) > 0 {
+			b := r.nodes[best[0]]
+			if n.round > b.round || (n.round == b.round && (n.period > b.period || (n.period == b.period && n.step > b.step))) {
+				continue
+			}
+			if n.round != b.round || n.period != b.period || n.step != b.step {
+				best = best[:0]
+			}
+		}
+		best = append(best, id)
+	}
+	return best[r.rng.Intn(len(best))]
 }
 
 // pickFast: the first fast timeout of a period (deadline 0) fires at once in real time; later ones only after
@@ -221,6 +249,18 @@ func (r *ndRun) pickCatchup(hon []int) int {
 		return -1
 	}
 	return behind[r.rng.Intn(len(behind))]
+}
+
+// mayCrash: with VERIF_ND_NODOUBLE=1 a restarted node is not crashed again before an attest of its new incarnation has
+// been persisted (keeps the schedules away from the crash-state wipe on double crashes, see the C01 report).
+func (r *ndRun) mayCrash(id int) bool {
+	if !ndNoDouble {
+		return true
+	}
+	r.mu.Lock()
+	defer r.mu.Unlock()
+	n := r.nodes[id]
+	return n.gen <= 1 || n.persistedInGen
 }
 
 func (r *ndRun) randMask(nonEmpty bool) string {
@@ -574,4 +614,3 @@ func (r *ndRun) refLedger() *ndLedger {
 func (r *ndRun) inject(src int, tag protocol.Tag, data []byte, mask []bool) {
 	r.onWire(src, tag, data, mask)
 }
-
